@@ -3,7 +3,12 @@
    first and copies the children order).  No proofs here.
 
    node table        _nodes : list (option node_data)          (None = deleted)
-   free stack        _free_nodes : list nid, head = top of the stack (Python pops from the end)
+   free indices      _free_nodes : list nid.  WHICH free index _add_node takes is not prescribed by the property
+                     (hugr-py pops the most recently freed one; a heap or a queue would do as well), so the
+                     choice is an ORACLE input of the model: [prefer pick h] moves the implementation's choice to
+                     the head of the list when it is admissible (a member of the list), and _add_node takes the
+                     head.  Without a choice (or with an inadmissible one) the head is the most recently freed
+                     index, i.e. the code as written.  A fresh index is allocated only when no index is free.
    links             _links : BiMap[_SubPort[OutPort], _SubPort[InPort]]  (model/BiMapM.v, dicts as
                      insertion-ordered association lists)
    a port            (node index, offset : Z), offset -1 = the order port; the direction is implied
@@ -185,6 +190,16 @@ Section G.
   Definition set_node (h : hugr) (n : nid) (d : node_data) : hugr :=
     with_nodes h (set_nth (nodes h) n (Some d)).
 
+  (* the choice of the free index (oracle): an admissible choice -- a member of the free list -- is moved to the
+     head, where _add_node takes it; anything else leaves the list alone.  [prefer None h] is h. *)
+  Definition pick_first (f : nid) (fr : list nid) : list nid :=
+    if mem Nat.eqb f fr then f :: filter (fun x => negb (Nat.eqb x f)) fr else fr.
+  Definition prefer (pick : option nid) (h : hugr) : hugr :=
+    match pick with
+    | None => h
+    | Some f => {| nodes := nodes h; links := links h; free := pick_first f (free h); root := root h |}
+    end.
+
   (* _add_node (base.py:159-180) followed by _update_port_count(num_outs=...) *)
   Definition add_node_raw (h : hugr) (o : Op) (parent : option nid) (num_outs : option Z) (m : Meta)
     : hugr * nid * res :=
@@ -326,7 +341,9 @@ Section G.
         end
     end.
 
-  Fixpoint insert_chain (A B : hugr) (m : mapping) (parent : option nid) (chain : list nid)
+  (* [om]: the oracle for the free-index choices of the add_node calls of one insertion, as a partial map
+     node of B -> index chosen for its copy (the mapping the implementation returned); [] = no choice given *)
+  Fixpoint insert_chain (om : mapping) (A B : hugr) (m : mapping) (parent : option nid) (chain : list nid)
     : hugr * mapping * res :=
     match chain with
     | [] => (A, m, Ok)
@@ -341,15 +358,15 @@ Section G.
             match np with
             | inr e => (A, m, e)
             | inl p =>
-                match add_node A (nd_op d) p (Some (nd_outs d)) (nd_meta d) with
-                | (A1, n, Ok) => insert_chain A1 B (dset Nat.eqb m c n) parent rest
+                match add_node (prefer (mget om c) A) (nd_op d) p (Some (nd_outs d)) (nd_meta d) with
+                | (A1, n, Ok) => insert_chain om A1 B (dset Nat.eqb m c n) parent rest
                 | (A1, _, e) => (A1, m, e)
                 end
             end
         end
     end.
 
-  Fixpoint insert_nodes (A B : hugr) (m : mapping) (parent : option nid) (todo : list nid)
+  Fixpoint insert_nodes (om : mapping) (A B : hugr) (m : mapping) (parent : option nid) (todo : list nid)
     : hugr * mapping * res :=
     match todo with
     | [] => (A, m, Ok)
@@ -357,8 +374,8 @@ Section G.
         match ancestors_todo (S (length (nodes B))) B m (Some n) [] with
         | inr e => (A, m, e)
         | inl chain =>
-            match insert_chain A B m parent chain with
-            | (A1, m1, Ok) => insert_nodes A1 B m1 parent rest
+            match insert_chain om A B m parent chain with
+            | (A1, m1, Ok) => insert_nodes om A1 B m1 parent rest
             | r => r
             end
         end
@@ -399,8 +416,8 @@ Section G.
         end
     end.
 
-  Definition insert_hugr (A B : hugr) (parent : option nid) : hugr * mapping * res :=
-    match insert_nodes A B [] parent (iter_nodes B) with
+  Definition insert_hugr (om : mapping) (A B : hugr) (parent : option nid) : hugr * mapping * res :=
+    match insert_nodes om A B [] parent (iter_nodes B) with
     | (A1, m, Ok) =>
         match copy_children A1 B m (iter_nodes B) with
         | (A2, Ok) => let '(A3, r) := copy_links A2 m (q_links B) in (A3, m, r)
@@ -472,9 +489,9 @@ Section G.
                     end
         end
     end.
-  Definition insert_wrapped (A B : hugr) (parent : nid) (wires : list port) (num_inps num_outs : option Z)
+  Definition insert_wrapped (om : mapping) (A B : hugr) (parent : nid) (wires : list port) (num_inps num_outs : option Z)
     : hugr * mapping * res :=
-    match insert_hugr A B (Some parent) with
+    match insert_hugr om A B (Some parent) with
     | (A1, m, Ok) =>
         match mget m (root B) with
         | None => (A1, m, EKey)
@@ -508,11 +525,18 @@ Section G.
     | DelNode n => let '(h', r) := delete_node h n in (h', RUnit, r)
     end.
   Definition brun (h : hugr) (cs : list bcmd) : hugr := fold_left (fun s c => fst (fst (bstep s c))) cs h.
-  Definition step (h : hugr) (c : cmd) : hugr * ret * res :=
+  (* the same with the free-index choices given: a command comes with the value the implementation returned,
+     which is used ONLY as the oracle of [prefer] (the index of an add_node, the mapping of an insert_hugr) *)
+  Definition pick_of (rt : ret) : option nid := match rt with RNode n => Some n | _ => None end.
+  Definition om_of (rt : ret) : mapping := match rt with RMap m => m | _ => [] end.
+  Definition bstep_at (rt : ret) (h : hugr) (c : bcmd) : hugr * ret * res := bstep (prefer (pick_of rt) h) c.
+  Definition brun_at (h : hugr) (cs : list (bcmd * ret)) : hugr :=
+    fold_left (fun s cr => fst (fst (bstep_at (snd cr) s (fst cr)))) cs h.
+  Definition step (rt : ret) (h : hugr) (c : cmd) : hugr * ret * res :=
     match c with
-    | Basic b => bstep h b
+    | Basic b => bstep_at rt h b
     | Insert o m _ src p =>
-        let '(h', mp, r) := insert_hugr h (brun (init o m) (map fst src)) p in (h', RMap mp, r)
+        let '(h', mp, r) := insert_hugr (om_of rt) h (brun_at (init o m) src) p in (h', RMap mp, r)
     end.
 End G.
 Arguments node_data : clear implicits.
